@@ -100,7 +100,10 @@ def run(case, ctx, rng):
             if not same(ctx, 'ctor-int', b, bits, x=x, n=n):
                 continue
             conversions(ctx, B, b, bits)
-            same(ctx, 'ctor-list', call(B, list(bits)), bits, x=x, n=n)
+            lst = list(bits)
+            same(ctx, 'ctor-list', call(B, lst), bits, x=x, n=n)
+            same(ctx, 'ctor-list', call(B, lst), bits, x=x, n=n, second_use_of_the_same_list=True)
+            ctx.check('argument-unchanged', lst == bits, lst, bits, x=x, n=n)
             if x.bit_length() == n or x == 0 and n == 0:
                 same(ctx, 'ctor-int', call(B, x), bits, x=x, n='auto')
             # truncation / extension through the size argument
